@@ -630,6 +630,9 @@ func (db *DB) rollbackJournal(ctx context.Context) error {
 		} else if err != nil {
 			return fmt.Errorf("next segment(%d): %w", i, err)
 		}
+		if db.pageSize == 0 {
+			db.pageSize = r.pageSize // empty database file, page size known from the journal only
+		}
 		if err := db.rollbackJournalSegment(ctx, r, dbFile); err != nil {
 			return fmt.Errorf("segment(%d): %w", i, err)
 		}
@@ -3647,6 +3650,32 @@ func (r *JournalReader) Next() (err error) {
 		return io.EOF
 	}
 
+	// Only read sector and page size from first journal header. This must be
+	// done before the sizes are used to compute the frame count below.
+	if r.offset == 0 {
+		r.sectorSize = binary.BigEndian.Uint32(hdr[20:])
+
+		// Use page size from journal reader, if set to 0.
+		pageSize := binary.BigEndian.Uint32(hdr[24:])
+		if pageSize == 0 {
+			pageSize = r.pageSize
+		}
+
+		// The database page size is unknown while the database file is still
+		// empty (e.g. a crash during the first transaction). Use the journal's.
+		if r.pageSize == 0 {
+			r.pageSize = pageSize
+		}
+		if pageSize != r.pageSize {
+			return fmt.Errorf("journal header page size (%d) does not match database (%d)", pageSize, r.pageSize)
+		}
+	}
+
+	// Without a page size there are no frames that could be rolled back.
+	if r.pageSize == 0 {
+		return io.EOF
+	}
+
 	// Read number of frames in journal segment. Set to -1 if no-sync was set
 	// and set to 0 if the journal was not sync'd. In these two cases we will
 	// calculate the frame count based on the journal size.
@@ -3660,20 +3689,6 @@ func (r *JournalReader) Next() (err error) {
 	// Read remaining fields from header.
 	r.nonce = binary.BigEndian.Uint32(hdr[12:])  // cksumInit
 	r.commit = binary.BigEndian.Uint32(hdr[16:]) // dbSize
-
-	// Only read sector and page size from first journal header.
-	if r.offset == 0 {
-		r.sectorSize = binary.BigEndian.Uint32(hdr[20:])
-
-		// Use page size from journal reader, if set to 0.
-		pageSize := binary.BigEndian.Uint32(hdr[24:])
-		if pageSize == 0 {
-			pageSize = r.pageSize
-		}
-		if pageSize != r.pageSize {
-			return fmt.Errorf("journal header page size (%d) does not match database (%d)", pageSize, r.pageSize)
-		}
-	}
 
 	// Exit if file doesn't have more than the initial sector.
 	if r.offset+int64(r.sectorSize) > r.fi.Size() {
